@@ -36,6 +36,7 @@ theorem lemma_read_wb (u : Under) (cap : Nat) (hwb : wellBehaved u.script = true
     | data k => rfl
     | zero => simp [hs, wellBehaved] at hwb
     | fail => simp [hs, wellBehaved] at hwb
+    | dataFail k => simp [hs, wellBehaved] at hwb
 
 theorem lemma_read_empty (u : Under) (cap : Nat) (hr : u.rem = []) :
     (u.read cap).1 = [] ∧ (u.read cap).2.1 = .eof := by
@@ -194,21 +195,22 @@ theorem lemma_read_gen (u : Under) (cap : Nat) :
       ((u.read cap).2.1 = .eof → u.rem.drop n = []) ∧ (u.read cap).2.1 ≠ .limit := by
   by_cases hr : u.rem = []
   · exact ⟨0, by omega, by omega, by simp [Under.read, hr], by simp [Under.read, hr], by simp [hr], by simp [Under.read, hr]⟩
-  · have hdata : ∀ s : List Step, (∀ t, s ≠ Step.zero :: t) → (∀ t, s ≠ Step.fail :: t) → u.script = s →
+  · have hdata : ∀ s : List Step, (∀ t, s ≠ Step.zero :: t) → (∀ t, s ≠ Step.fail :: t) → (∀ k t, s ≠ Step.dataFail k :: t) → u.script = s →
         u.read cap = (u.rem.take (min (chunkOf u cap) u.rem.length),
           (if u.rem.drop (min (chunkOf u cap) u.rem.length) = [] ∧ u.eofWithLast = true then Err.eof else Err.none),
           { u with rem := u.rem.drop (min (chunkOf u cap) u.rem.length), script := u.script.tail }) := by
-      intro s h1 h2 hs
+      intro s h1 h2 h3 hs
       unfold Under.read
       simp only [hr, if_false]
       split
       · next rest heq => exact absurd (hs ▸ heq) (h1 rest)
       · next rest heq => exact absurd (hs ▸ heq) (h2 rest)
+      · next k rest heq => exact absurd (hs ▸ heq) (h3 k rest)
       · rfl
     have hck : chunkOf u cap ≤ cap := by unfold chunkOf; split <;> omega
     cases hs : u.script with
     | nil =>
-      rw [hdata [] (by simp) (by simp) hs]
+      rw [hdata [] (by simp) (by simp) (by simp) hs]
       refine ⟨min (chunkOf u cap) u.rem.length, by omega, by omega, rfl, rfl, ?_, ?_⟩
       · intro h; by_cases hc : u.rem.drop (min (chunkOf u cap) u.rem.length) = [] ∧ u.eofWithLast = true
         · exact hc.1
@@ -217,7 +219,7 @@ theorem lemma_read_gen (u : Under) (cap : Nat) :
     | cons a t =>
       cases a with
       | data k =>
-        rw [hdata (Step.data k :: t) (by simp) (by simp) hs]
+        rw [hdata (Step.data k :: t) (by simp) (by simp) (by simp) hs]
         refine ⟨min (chunkOf u cap) u.rem.length, by omega, by omega, rfl, rfl, ?_, ?_⟩
         · intro h; by_cases hc : u.rem.drop (min (chunkOf u cap) u.rem.length) = [] ∧ u.eofWithLast = true
           · exact hc.1
@@ -225,6 +227,9 @@ theorem lemma_read_gen (u : Under) (cap : Nat) :
         · simp only; split <;> simp
       | zero => exact ⟨0, by omega, by omega, by simp [Under.read, hr, hs], by simp [Under.read, hr, hs], by simp [Under.read, hr, hs], by simp [Under.read, hr, hs]⟩
       | fail => exact ⟨0, by omega, by omega, by simp [Under.read, hr, hs], by simp [Under.read, hr, hs], by simp [Under.read, hr, hs], by simp [Under.read, hr, hs]⟩
+      | dataFail k =>
+        exact ⟨min (min cap (max k 1)) u.rem.length, by omega, by omega, by simp [Under.read, hr, hs], by simp [Under.read, hr, hs],
+          by simp [Under.read, hr, hs], by simp [Under.read, hr, hs]⟩
 
 /-- the look-ahead never answers "no byte, no error"; it consumes at most one byte; io.EOF only
     when nothing remains -/
